@@ -56,4 +56,9 @@ for name, prop, out in results:
         matrix[name] = {"property": prop, "caught_by": [], "inconclusive": [], "stale_patch": True, "detail": {}}
         continue
     print(f"{name:42s} {prop}  caught by: {','.join(caught) or '-'}{'   inconclusive: ' + ','.join(incon) if incon else ''}")
+if a.only and os.path.exists(os.path.join(V, a.out)):
+    # a partial run is merged into what is there (with --all-checks into a full matrix, please)
+    old_matrix = json.load(open(os.path.join(V, a.out)))
+    old_matrix.update(matrix)
+    matrix = old_matrix
 json.dump(matrix, open(os.path.join(V, a.out), "w"), indent=1, ensure_ascii=False)
